@@ -262,3 +262,86 @@ func runLabelShapes(r *mon.Run) {
 	}
 	r.Count("label_shape_lists_judged", int64(n))
 }
+
+// windowRcpt is a recipient whose label list is a WINDOW into the arguments
+// of the stanza it returns (it announces its labels in the stanza, as some
+// plugins' recipient stanzas do, and returns args[1:] as the labels): what
+// the library does to the stanza on its way into the header must not change
+// the labels it compares.
+type windowRcpt struct {
+	labels []string
+	// shared: the labels are (also) a window into an array another recipient
+	// of the same list uses
+	shared []string
+}
+
+func (w *windowRcpt) Wrap(fileKey []byte) ([]*age.Stanza, error) {
+	s, _, err := w.WrapWithLabels(fileKey)
+	return s, err
+}
+
+func (w *windowRcpt) WrapWithLabels(fileKey []byte) ([]*age.Stanza, []string, error) {
+	if w.shared != nil {
+		return []*age.Stanza{{Type: "verif-window", Args: []string{"shared"}, Body: append([]byte(nil), fileKey...)}}, w.shared[:len(w.labels)], nil
+	}
+	args := append([]string{"labels:"}, w.labels...)
+	return []*age.Stanza{{Type: "verif-window", Args: args, Body: append([]byte(nil), fileKey...)}}, args[1:], nil
+}
+
+// runLabelWindows: label lists that alias the stanza's arguments or another
+// recipient's list, with label texts a serialiser is tempted to tidy (edge
+// white space, letter case). The partner declares either the same texts (own
+// copy) or the tidied ones; recipients in both orders.
+func runLabelWindows(r *mon.Run) {
+	texts := []string{"team\r", "team ", "team\t", " team", "Team", "TEAM", "team\r\n", "team\x00", "team"}
+	tidy := func(s string) string { return strings.ToLower(strings.TrimSpace(strings.TrimRight(s, "\x00"))) }
+	n := 0
+	for _, t := range texts {
+		for _, other := range [][]string{{"pq", t}, {"pq", tidy(t)}, {t}, {tidy(t)}} {
+			mine := []string{"pq", t}
+			if len(other) == 1 {
+				mine = []string{t}
+			}
+			for _, mode := range []string{"args-window", "shared-array"} {
+				for order := 0; order < 2; order++ {
+					calls := 0
+					var first age.Recipient
+					if mode == "shared-array" {
+						arr := append(make([]string, 0, 8), mine...)
+						first = &windowRcpt{labels: mine, shared: arr}
+					} else {
+						first = &windowRcpt{labels: mine}
+					}
+					second := mk(labelSpec{labels: other}, 2, false, &calls)
+					rs := []age.Recipient{first, second}
+					if order == 1 {
+						rs[0], rs[1] = rs[1], rs[0]
+					}
+					want := labelSpec{labels: mine}.set() == labelSpec{labels: other}.set()
+					dst := &mon.ObservingWriter{}
+					w, err := age.Encrypt(dst, rs...)
+					r.Eval(1)
+					n++
+					desc := fmt.Sprintf("labels %q as a %s, partner declares %q, window recipient at %d", mine, mode, other, order)
+					r.Distinct("label-window " + desc)
+					replay := map[string]any{"case": desc}
+					switch {
+					case err == nil && !want:
+						r.Violate("label-window:accepted-incompatible:"+mode, "Encrypt accepted recipients with different label sets: "+desc, replay)
+					case err != nil && want && strings.Contains(err.Error(), "label"):
+						// (a header that cannot be written for another reason —
+						// an argument with a control character — is not a
+						// decision about labels)
+						r.Violate("label-window:refused-compatible:"+mode, fmt.Sprintf("Encrypt refused recipients with equal label sets: %s: %v", desc, err), replay)
+					case err != nil && dst.Len() != 0:
+						r.Violate("label-window:bytes-on-refusal", fmt.Sprintf("%s: refused after writing %d bytes", desc, dst.Len()), replay)
+					}
+					if err == nil && w != nil {
+						w.Close()
+					}
+				}
+			}
+		}
+	}
+	r.Count("label_window_lists_judged", int64(n))
+}
